@@ -23,7 +23,7 @@ PROPS = {
     },
     "C03": {
         "level": "exploration",
-        "rule": "96 GraphSpecs x seeded histories over uniformly weighted (exact multiples of 0.25) or uniformly unweighted edges with forced 'second edge, smaller / larger weight' steps in both orientations; after EVERY op the traversal lists in the snapshot must equal the Model's min-weight adjacency; at the end dijkstra::single_source from every node (and betweenness/closeness on every 3rd history) must equal the oracle fed with get_all_edges() only. Non-trivial = history added a second edge to an existing pair; distinct = distinct (specs, history) hashes.",
+        "rule": "96 GraphSpecs x seeded histories over uniformly weighted (exact multiples of 0.25) or uniformly unweighted edges with forced 'second edge, smaller / larger weight' steps in both orientations; after EVERY op the traversal lists (successors_vec / predecessors_vec) in the snapshot must equal the Model's min-weight adjacency and the neighbour sets by name and by position must equal the stored edge relation; at the end dijkstra::single_source from every node (and betweenness/closeness on every 3rd history) must equal the oracle fed with get_all_edges() only. Non-trivial = history added a second edge to an existing pair; distinct = distinct (specs, history) hashes.",
         "assumptions": COMMON + ["hook: Graph::verif_snapshot()", "weights are exact dyadic rationals so oracle and implementation sums are exact"],
         "min_reach": {"any": ["reach:D:second-edge-smaller:KeepFirst", "reach:D:second-edge-larger:KeepFirst", "reach:D:second-edge-smaller:KeepLast", "reach:D:second-edge-larger:KeepLast", "reach:D:second-edge-smaller:multi", "reach:D:second-edge-larger:multi", "reach:U:second-edge-smaller:KeepFirst", "reach:U:second-edge-larger:KeepFirst", "reach:U:second-edge-smaller:KeepLast", "reach:U:second-edge-larger:KeepLast", "reach:U:second-edge-smaller:multi", "reach:U:second-edge-larger:multi"]},
     },
@@ -31,7 +31,7 @@ PROPS = {
         "level": "exploration",
         "rule": "96 GraphSpecs x seeded histories with forced self-loops and parallel/opposite edges; at the end of each history counts, size, per-node and all-node (weighted) degrees, handshake identities, degree_centrality, density and the sparse adjacency matrix are compared with the Model's edge multiset. Non-trivial = final graph has >=1 edge; distinct = distinct (specs, history) hashes.",
         "assumptions": COMMON + ["weighted identities are only checked on histories whose weights are exact multiples of 0.25", "matrix non-zero pattern is not checked when a stored weight is 0"],
-        "min_reach": {"any": ["reach:directed-graph-with-self-loop", "reach:multigraph-with-parallel-edges", "reach:matrix-undirected-name-order-differs-from-position-order"]},
+        "min_reach": {"any": ["reach:directed-graph-with-self-loop", "reach:multigraph-with-parallel-edges", "reach:node-with-parallel-self-loops", "reach:matrix-undirected-name-order-differs-from-position-order"]},
     },
     "C15": {
         "level": "exploration",
